@@ -49,9 +49,10 @@ CONSTANTS Names,       \* identifiers used by name events, e.g. {"a","b"}
           Blocks,      \* compound statements the binders and nested definitions of a block may
                        \*   be written in: subset of {"none", "with0", "if", "for", "try", "while"}
                        \*   ("with0": `with cm():` without `as`).  They are not scopes: same rule
-          Roles,       \* roles of a def directly in a class: subset of {"plain", "init", "call"}
+          Roles,       \* roles of a def directly in a class: subset of {"plain", "init", "call", "new"}
                        \*   ("init" / "call": the def is `__init__` / `__call__`; the class is then
-                       \*    instantiated, and the instance called, instead of calling the def)
+                       \*    instantiated, and the instance called, instead of calling the def;
+                       \*    "new": the def is `__new__(cls, *a, **k)` returning object.__new__(cls))
           Decos,       \* decorators a def may carry: subset of {"none", "property", "other"}
                        \*   (a decorated def still binds its name in the enclosing block)
           LibNames,    \* names the second module may have: "lb", and members of Names
@@ -375,6 +376,7 @@ AddEvent(s, op, n) ==
   /\ s \in 1..Len(scopes)
   /\ op \in Ops \cap OpsOf(scopes[s].kind)
   /\ scopes[s].one => op \in {"bind", "param"}
+  /\ (scopes[s].role = "new") => op \notin ParamOps \cup {"kwcall", "defuse"}
   /\ (op \in SibRefOps) => lib = "shadowed"
   /\ (op \in LibRefOps) => lib # "none"
   /\ n \in Names
